@@ -100,6 +100,8 @@ AddSub(a, b, sgn) ==
        \* operands whose display unit the language leaves open: decided on SI values, unless a
        \* plain number would have to adopt that open unit
        IF Plain(a) \/ Plain(b) THEN Ood
+       \* a dimensionless product or quotient may or may not count as a plain number: not decided here
+       ELSE IF (a.free /\ a.dims = Dim0) \/ (b.free /\ b.dims = Dim0) THEN Ood
        ELSE IF a.dims # b.dims THEN Err
        ELSE IF a.free THEN FreeVal(IF sgn = 1 THEN RAdd(a.si, b.si) ELSE RSub(a.si, b.si), a.dims)
        ELSE Val(IF sgn = 1 THEN RAdd(a.si, b.si) ELSE RSub(a.si, b.si), a.dims, a.u, Unknown)
@@ -134,7 +136,7 @@ Apply(op, a, b) ==
     [] op = "^" -> ApplyPow(a, b)
 
 Cast(a, u) ==      \* a to u
-  IF a.free THEN (IF HasOffset(u) THEN Ood ELSE IF a.dims # Dims(u) THEN Err ELSE Val(a.si, a.dims, u, Unknown))
+  IF a.free THEN (IF HasOffset(u) \/ a.dims = Dim0 THEN Ood ELSE IF a.dims # Dims(u) THEN Err ELSE Val(a.si, a.dims, u, Unknown))
   ELSE LET c == Compatible(u, a.u) IN
        IF c = "ood" THEN Ood ELSE IF c = "no" THEN Err
        ELSE IF Plain(a) THEN Val(RMul(a.si, Scale(u)), Dims(u), u, a.q)      \* a plain number takes the unit
